@@ -963,6 +963,8 @@ func init() {
 					if fi.within(st, gif.Body) {
 						nilEdge, _ = gif.Else.(*ast.BlockStmt)
 						leaves = nilEdge != nil // the insertion is in the other arm: nothing is inserted on this edge
+					} else if gif.Else != nil && fi.within(st, gif.Else) {
+						leaves = true // likewise, the other way round
 					}
 					added := false
 					if nilEdge != nil {
